@@ -72,7 +72,7 @@ fn one<T: RelationToQueryTranslator + QueryToRelationTranslator + Copy>(cx: &mut
         cx.st.violation(json!({"kind":"read-back-column-names-differ","dialect":name,"class":cx.class,"query":cx.sql,"schema":a,"read_back":b}));
     } else if a != b {
         let pairs: Vec<(&(String, String), &(String, String))> = a.iter().zip(b.iter()).filter(|(x, y)| x != y).collect();
-        let boolish = |t: &str| t.starts_with("bool") || t.starts_with("option(bool");
+        let boolish = |t: &str| t.starts_with("bool") || t.starts_with("option(bool") || t == "null";
         let change = if pairs.iter().all(|(x, y)| boolish(&x.1) && !boolish(&y.1)) { "boolean-to-number" } else { "other" };
         cx.st.violation(json!({"kind":"read-back-column-types-differ","dialect":name,"class":cx.class,"construct":change,"query":cx.sql,"differ":pairs.iter().take(3).collect::<Vec<_>>()}));
     }
@@ -131,7 +131,7 @@ pub fn run(outdir: &str, seed: u64, thorough: bool) -> serde_json::Value {
                 "SELECT '--' AS a, '/* x */' AS b, t.city AS c FROM users AS t", "SELECT t.age * -1 AS x, t.age / 2 AS y, t.age % 7 AS z FROM users AS t",
                 "SELECT CASE WHEN t.age > 30 THEN -(-t.income) ELSE - t.income END AS x FROM users AS t"];
             let sql = if k >= 1 && k <= frag_targeted.len() { frag_targeted[k - 1].to_string() } else {
-                let (q0, cols) = { let mut g = QGen::new(&mut r, &w.specs); g.query(depth) };
+                let (q0, cols) = { let mut g = QGen::new(&mut r, &w.specs); g.bool_items = true; g.query(depth) };
                 let is_set = q0.contains(" UNION ") || q0.contains(" INTERSECT ") || q0.contains(" EXCEPT ");
                 if is_set { q0 } else { let (q, o) = crate::c08::decorate(&mut r, &q0, &cols); ordered = o; q } };
             let Ok(Ok(rel)) = catch_unwind(AssertUnwindSafe(|| to_relation(&w, &sql))) else { continue };
